@@ -359,6 +359,11 @@ def r8(ctx, rep):
                     n += 1
                     second = elts[1]
                     pm = pm or astq.parent_map(fn)
+                    if isinstance(second, ast.Name):
+                        # a local that holds the looked-up node (`access = branch.find(anode(w1, w2))`): judge the expression it was assigned
+                        assigned = [st.value for t, st in astq.stores(fn) if isinstance(t, ast.Name) and t.id == second.id and isinstance(st, ast.Assign)]
+                        if len(assigned) == 1 and astq.u(assigned[0]).startswith('branch.find(anode('):
+                            second = assigned[0]
                     txt = astq.u(second)
                     if txt.startswith('branch.find(anode('):
                         ok, why = True, 'second node is the access pair found by its worlds'
